@@ -101,7 +101,13 @@ func genC14(p *Plan, r *RNG) {
 		if r.Chance(1, 2) {
 			p.Ops = append(p.Ops, Op{Actor: "c1", Kind: "writeto", At: gap(g), A: OpArgs{Peer: p.Peers[pi].Addr, Len: r.Range(20, 300)}})
 		} else {
-			p.Ops = append(p.Ops, Op{Actor: p.Peers[pi].ID, Kind: "peer_send", At: gap(g), A: OpArgs{Target: "c1", Len: r.Range(20, 300)}})
+			o := Op{Actor: p.Peers[pi].ID, Kind: "peer_send", At: gap(g), A: OpArgs{Target: "c1", Len: r.Range(20, 300)}}
+			if r.Chance(1, 3) {
+				// another port of the same host (an RTP/RTCP pair): covered by the permission for
+				// that IP, never by the channel the client bound to the first port
+				o.A.N = 6000 + r.Intn(3)
+			}
+			p.Ops = append(p.Ops, o)
 		}
 		if len(p.Ops) > 120 {
 			break
